@@ -36,7 +36,7 @@ man = {
     "hooks": {
         "guard": "verif",
         "enable": "go build -tags verif -overlay <generated overlay.json mapping harness/overlay/<pkg>/zz_verif_*.go into /repo/<pkg>/> (done by ./check)",
-        "baseline_off_cmd": "cd /repo && GOFLAGS=-mod=mod go test -vet=off -count=1 -timeout 25m ./...",
+        "baseline_off_cmd": "cd /repo && GOFLAGS=-mod=mod go test -mod=mod -json -vet=off -count=1 -timeout 25m ./...",
         "source_commits": hook_commits(),
         "add_only": True,
     },
